@@ -1,7 +1,7 @@
 (* C06 case generation: sandbox confinement.
    A case is a template set whose template main includes sb0 with the keyword sandboxed; below that boundary a chain
    of up to three nesting steps (include, include only, include with, nested sandboxed include, extends, import + module
-   call, from-import + call, local macro call, parent()) leads to ONE syntactic position holding the target name: a spy
+   call, from-import + call, local macro call, parent(), the top level of an imported / from-imported template) leads to ONE syntactic position holding the target name: a spy
    filter, a spy function, a built-in filter or a built-in function. The policy of the case decides whether the target
    and the names the nesting itself needs (macro names, parent, helper filters) are allowed:
      none       nothing is allowed
@@ -15,6 +15,7 @@
      c06-pos      every position x nesting x policy x target (exhaustive up to a nesting length, random above)
      c06-unreach  positions that are NOT evaluated (untaken branches, unused defaults, short circuits, overridden
                   blocks): a forbidden name there refuses nothing
+     c06-names    near misses of the allowed names (other case, extension, prefix, long name): refused
      c06-outside  forbidden names before, after and in the arguments of the sandboxed include, in the includer:
                   never refused
      c06-rand     generated template sets with a policy and sandboxed includes (model against engine)
@@ -48,7 +49,18 @@ let customs = [
   { G.ckind = "filter"; G.cname = "spya"; G.cb = M.CbId };
   { G.ckind = "function"; G.cname = "spyfn"; G.cb = M.CbId }; { G.ckind = "function"; G.cname = "spyfno"; G.cb = M.CbId };
   { G.ckind = "function"; G.cname = "spyfna"; G.cb = M.CbId };
-  { G.ckind = "test"; G.cname = "spyt"; G.cb = M.CbId } ]
+  { G.ckind = "test"; G.cname = "spyt"; G.cb = M.CbId };
+  (* near misses of the allowed names: another case, an extension, a prefix, a long name *)
+  { G.ckind = "filter"; G.cname = "Spy"; G.cb = M.CbId }; { G.ckind = "filter"; G.cname = "spy2"; G.cb = M.CbId };
+  { G.ckind = "filter"; G.cname = "sp"; G.cb = M.CbId }; { G.ckind = "filter"; G.cname = "spy_long_filter_name_x"; G.cb = M.CbId };
+  { G.ckind = "filter"; G.cname = "UPPER"; G.cb = M.CbId };
+  { G.ckind = "function"; G.cname = "Spyfn"; G.cb = M.CbId }; { G.ckind = "function"; G.cname = "spyfn2"; G.cb = M.CbId };
+  { G.ckind = "function"; G.cname = "spyf"; G.cb = M.CbId }; { G.ckind = "function"; G.cname = "spyfn_long_function_name"; G.cb = M.CbId } ]
+let near_misses = [ { tkind = "filter"; tname = "Spy"; custom = true }; { tkind = "filter"; tname = "spy2"; custom = true };
+                    { tkind = "filter"; tname = "sp"; custom = true }; { tkind = "filter"; tname = "spy_long_filter_name_x"; custom = true };
+                    { tkind = "filter"; tname = "UPPER"; custom = true };
+                    { tkind = "function"; tname = "Spyfn"; custom = true }; { tkind = "function"; tname = "spyfn2"; custom = true };
+                    { tkind = "function"; tname = "spyf"; custom = true }; { tkind = "function"; tname = "spyfn_long_function_name"; custom = true } ]
 
 let builtin_filters = [ "upper"; "lower"; "default"; "join"; "length"; "reverse"; "raw"; "escape"; "e"; "trim"; "first"; "last";
                         "keys"; "sort"; "slice"; "capitalize"; "title"; "abs"; "spaceless"; "merge"; "nl2br"; "count" ]
@@ -109,7 +121,7 @@ let position (b : build) (p : string) (t : target) : M.node list =
   | "for-seq-chain-last" -> need_filter (); need_custom (); helper_f "reverse"; reach b t.tkind t.tname;
     [ M.NFor (None, bs "i", filt (filt (var "xs") "reverse" []) t.tname [], [ print (var "i") ], None) ]
   | "for-seq-array" -> [ M.NFor (None, bs "i", M.EArr [ et (); lit_int 7 ], [ print (var "i") ], None) ]
-  | "for-body" -> [ M.NFor (None, bs "i", var "xs", [ print (et ()); text "," ], None) ]
+  | "for-body" -> [ M.NFor (None, bs "i", M.EArr [ lit_int 1; lit_int 2 ], [ print (et ()); text "," ], None) ]
   | "set-value" -> [ M.NSet (bs "y", et ()); print (var "y") ]
   | "include-name" ->
     need_custom ();
@@ -183,7 +195,8 @@ let unreached_position (b : build) (p : string) (t : target) : M.node list =
   | _ -> raise Skip
 
 (* ---------------------------------------------------------------- nesting below the sandbox boundary *)
-let steps = [ "include"; "include-only"; "include-with"; "include-sandboxed"; "extends"; "import"; "from"; "macro"; "parent" ]
+let steps = [ "include"; "include-only"; "include-with"; "include-sandboxed"; "extends"; "import"; "from"; "macro"; "parent";
+              "import-top"; "from-top" ]
 let pass_vars = Some (hash [ ("x", var "x"); ("n", var "n"); ("xs", var "xs"); ("m", var "m") ])
 
 (* the nodes, for the current template, that lead through the remaining steps to the payload *)
@@ -215,6 +228,15 @@ let rec wrap (b : build) (st : string list) (payload : unit -> M.node list) : M.
        reach b "function" m;
        add_tpl b lib [ M.NMacro (bs m, [], wrap b rest payload) ];
        [ M.NFrom (lit_str lib, [ (bs m, bs m) ]); print (call m []) ]
+     | "import-top" ->
+       (* the top level of an imported template is rendered (into nothing) when it is imported *)
+       let lib = fresh b "tq" and m = fresh b "mq" and alias = fresh b "al" in
+       add_tpl b lib (wrap b rest payload @ [ M.NMacro (bs m, [], [ text "q" ]) ]);
+       [ M.NImport (lit_str lib, bs alias); text "i" ]
+     | "from-top" ->
+       let lib = fresh b "tr" and m = fresh b "mr" in
+       add_tpl b lib (wrap b rest payload @ [ M.NMacro (bs m, [], [ text "r" ]) ]);
+       [ M.NFrom (lit_str lib, [ (bs m, bs m) ]); text "f" ]
      | "macro" ->
        let m = fresh b "mm" in
        reach b "function" m;
@@ -266,8 +288,8 @@ let emit_built oc ~stream ~(b : build) ~(t : target) ~(pname : string) ~(boundar
   let reached = uniq b.reached in
   let forbidden_reached = List.filter (fun kn -> not (allowed pol kn)) reached in
   let must_fail = forbidden_reached <> [] in
-  let forbidden_inside = List.filter (fun k -> List.mem k [ ("filter", "spy"); ("function", "spyfn"); ("filter", "spya"); ("function", "spyfna") ]
-                                                && not (allowed pol k)) (uniq b.used) in
+  let inside_only (k, n) = List.exists (fun c -> c.G.ckind = k && c.G.cname = n) customs && n <> "spyo" && n <> "spyfno" in
+  let forbidden_inside = List.filter (fun k -> inside_only k && not (allowed pol k)) (uniq b.used) in
   let extra = [ "pos", JS pos; "nest", JL (List.map (fun s -> JS s) nest); "depth", JI (List.length nest); "pol", JS pname;
                 "boundary", JS boundary; "target", JS (t.tkind ^ ":" ^ t.tname);
                 "target_allowed", JB (allowed pol (t.tkind, t.tname));
@@ -369,7 +391,7 @@ let run ~seed ~tier oc =
       (nestings len)
   done;
   (* deeper nestings: random *)
-  let deep = if thorough then 40000 else 2500 in
+  let deep = if thorough then 150000 else 2500 in
   for _ = 1 to deep do
     let len = exhaustive_len + 1 + rint r (3 - exhaustive_len) in
     let nest = List.init len (fun _ -> pickl r steps) in
@@ -382,7 +404,12 @@ let run ~seed ~tier oc =
       one_pos oc ~stream:"c06-unreach" ~reachedp:false pos nest pname t "plain")
       ([ [] ] @ (if thorough then nestings 1 else [ [ "include" ]; [ "macro" ]; [ "extends" ] ])))
       [ "none"; "allbut"; "all" ]) targets) unreached_positions;
+  (* near misses of allowed names: the policy is a set of exact names *)
+  List.iter (fun t -> List.iter (fun pos -> List.iter (fun nest -> List.iter (fun pname ->
+      one_pos oc ~stream:"c06-names" ~reachedp:true pos nest pname t "plain")
+      [ "spies"; "allbut"; "all" ]) [ []; [ "include" ]; [ "macro" ] ])
+      [ "print"; "chain-first"; "for-seq"; "apply-tag"; "function-arg"; "macro-default" ]) near_misses;
   outside_stream oc;
   swallow_stream oc;
-  rand_stream r oc (if thorough then 12000 else 600);
+  rand_stream r oc (if thorough then 20000 else 600);
   prerr_endline (Printf.sprintf "c06: %d cases, %d without a spelling" !emitted !skipped)
